@@ -433,3 +433,7 @@ PROPS["C13"]["rule"] += " Stream zkloop (shared with C15), judged here on `inc`:
 PROPS["C14"]["rule"] += " Stream zkloop (shared with C15), judged here on `inc`: an incident announced before the lock was lost is not announced afresh after it is regained."
 PROPS["C15"]["streams"].append(dict(_NOTIFIER_STREAM, keys={"notes"}))
 PROPS["C15"]["rule"] += " Stream notifier (shared with C13/C14), judged here on the notifications: its refresh ops include storage that takes no listing request before the time-out; the group records (LastEval among them) must survive that."
+
+# C20's "configured extras" clause: what Configure hands a module as extras is what was configured (N conf, ex=)
+PROPS["C20"]["streams"].append(dict(_NOTIFIER_STREAM, keys={"ex"}))
+PROPS["C20"]["rule"] += " Stream notifier (shared with C13/C14), judged here on `ex`: the REAL Coordinator.Configure on a notifier section whose modules have extras containing `$`, `${…}` and `%`; the extras each module's templates will be given must be the configured ones."
